@@ -9,10 +9,13 @@ import (
 
 	"verifsim/simkit"
 
+	"bytes"
+	weed_server "github.com/chrislusf/seaweedfs/weed/server"
 	"github.com/chrislusf/seaweedfs/weed/storage"
 	"github.com/chrislusf/seaweedfs/weed/storage/needle"
 	"github.com/chrislusf/seaweedfs/weed/storage/super_block"
 	"github.com/chrislusf/seaweedfs/weed/storage/types"
+	"net/http/httptest"
 )
 
 // A session is a step-by-step execution of a plan against one live volume
@@ -86,31 +89,31 @@ type appended struct {
 }
 
 type sess struct {
-	r        *simkit.Run
-	prop     string
-	kind     storage.NeedleMapKind
-	volTtl   string
-	A, B     *node
-	model    map[uint64]*mblob
-	gates    *simkit.Gates
-	phase    string
-	readOnly bool
-	cdone    chan error // running compaction
-	mdone    chan error // running commit
-	calgo    int
-	compacted bool
-	records  []appended // what the harness appended to A's data file since creation / last commit
-	scanOK   bool
-	volumeGone bool
-	advs     int
-	heldEmpty map[uint64]bool // keys that ever received an empty payload (see known_findings.json)
-	syncFailed map[uint64]bool // keys written in a batch whose fsync failed (rollback path)
-	unchangedRewrite map[uint64]bool // keys whose last upload was answered "unchanged"
-	lastStep bool
+	r                  *simkit.Run
+	prop               string
+	kind               storage.NeedleMapKind
+	volTtl             string
+	A, B               *node
+	model              map[uint64]*mblob
+	gates              *simkit.Gates
+	phase              string
+	readOnly           bool
+	cdone              chan error // running compaction
+	mdone              chan error // running commit
+	calgo              int
+	compacted          bool
+	records            []appended // what the harness appended to A's data file since creation / last commit
+	scanOK             bool
+	volumeGone         bool
+	advs               int
+	heldEmpty          map[uint64]bool // keys that ever received an empty payload (see known_findings.json)
+	syncFailed         map[uint64]bool // keys written in a batch whose fsync failed (rollback path)
+	unchangedRewrite   map[uint64]bool // keys whose last upload was answered "unchanged"
+	lastStep           bool
 	rewrittenUnchanged map[uint64]bool // C09: keys whose last upload was an identical rewrite answered "unchanged"
-	orderHazard bool // at the last algorithm-1 compaction the largest live key was not the last appended record
-	appendOrd   map[uint64]int
-	ordCounter  int
+	orderHazard        bool            // at the last algorithm-1 compaction the largest live key was not the last appended record
+	appendOrd          map[uint64]int
+	ordCounter         int
 }
 
 func (s *sess) open(n *node) {
@@ -134,6 +137,7 @@ func (s *sess) wrapFaults(n *node) {
 }
 
 func newSess(r *simkit.Run, prop string) *sess {
+	ResetHeld()
 	p := r.Plan
 	s := &sess{r: r, prop: prop, kind: storage.NeedleMapKind(p.C("kind")), volTtl: p.CS("volttl"), model: map[uint64]*mblob{}, phase: "before", scanOK: true}
 	s.A = &node{dir: filepath.Join(r.Dir, "A")}
@@ -235,6 +239,8 @@ func (s *sess) step(st *simkit.Step) bool {
 		s.doDelete(st)
 	case "r":
 		s.checkKey(uint64(st.Int("key")), "read")
+	case "wc":
+		s.wrongCookieAccess(uint64(st.Int("key")), uint32(st.Int("cookie")))
 	case "ro":
 		if err := s.A.st.MarkVolumeReadonly(VID); err == nil {
 			s.readOnly = true
@@ -530,6 +536,45 @@ func matchModel(rr ReadResult, m *mblob, now time.Time) (bool, string) {
 	return rr.Matches(m.Blob)
 }
 
+// wrongCookieAccess sends a GET and then a DELETE that present another cookie than the stored
+// one through the volume server's own HTTP handler (the cookie rule for reads and deletes lives
+// there, not in the Store): the GET must not return the data, the DELETE must not remove it.
+func (s *sess) wrongCookieAccess(key uint64, cookie uint32) {
+	r := s.r
+	m := s.model[key]
+	if s.volumeGone || m == nil || m.alts != nil || !m.Exists || m.Cookie == cookie {
+		return
+	}
+	live := m.liveAt(s.now()) && len(m.Data) > 0 && !s.heldEmpty[key] && !s.anySyncFailed()
+	vs := weed_server.VerifNewVolumeServer(s.A.st)
+	url := fmt.Sprintf("/%d,%x%08x", VID, key, cookie)
+	get := httptest.NewRecorder()
+	vs.VerifPrivateHandler(get, httptest.NewRequest("GET", url, nil))
+	r.Log("GET %s (stored cookie %x) -> %d, %d bytes", url, m.Cookie, get.Code, get.Body.Len())
+	r.Abs(fmt.Sprintf("wc-get:%d", get.Code))
+	r.NonTrivial()
+	r.Probe("wrong-cookie-read-through-handler")
+	if get.Code < 300 || (live && get.Body.Len() >= len(m.Data) && len(m.Data) > 0 && bytes.Contains(get.Body.Bytes(), m.Data)) {
+		vkey := "http-get"
+		if len(m.Data) == 0 || s.heldEmpty[key] {
+			vkey = "empty-blob" // recorded: a size-0 record is answered without being read, so its cookie is never compared
+		}
+		r.Violate("wrong-cookie-read-returned-data", vkey, "GET %s with cookie %x (stored: %x) answered %d with %d bytes", url, cookie, m.Cookie, get.Code, get.Body.Len())
+		return
+	}
+	del := httptest.NewRecorder()
+	vs.VerifPrivateHandler(del, httptest.NewRequest("DELETE", url, nil))
+	r.Log("DELETE %s -> %d %s", url, del.Code, strings.TrimSpace(del.Body.String()))
+	r.Abs(fmt.Sprintf("wc-del:%d", del.Code))
+	r.Probe("wrong-cookie-delete-through-handler")
+	if live && del.Code == 202 {
+		r.Violate("wrong-cookie-delete-accepted", "http-delete", "DELETE %s with cookie %x (stored: %x) was accepted: %s", url, cookie, m.Cookie, strings.TrimSpace(del.Body.String()))
+		return
+	}
+	// whatever it answered, nothing may have been removed
+	s.checkKey(key, "read-after-wrong-cookie-delete")
+}
+
 func (s *sess) checkKey(key uint64, tag string) {
 	r := s.r
 	if s.volumeGone {
@@ -541,6 +586,10 @@ func (s *sess) checkKey(key uint64, tag string) {
 		cookie = m.Cookie
 	}
 	rr := ReadBlob(s.A.st, key, cookie)
+	if rr.HeldChanged != "" {
+		r.Violate("read-result-changed-after-return", "held-across-the-next-read", "%s: %s", tag, rr.HeldChanged)
+		return
+	}
 	now := s.now()
 	cands := []*mblob{m}
 	if m != nil && m.alts != nil {
